@@ -289,3 +289,18 @@ Theorem C14_endpoint_kept_verbatim_refuted :
   = Ok ("https://idp.example.com/a/b/c%20d?SAMLRequest=RA%3D%3D", None).
 Proof. exact endpoint_kept_verbatim_refuted. Qed.
 Print Assumptions C14_endpoint_kept_verbatim_refuted.
+
+(* The same for the exported functions as translated from build_request.go (GenRedirect.v) run with the modelled parser: when
+   the configured endpoint is of the common class, a URL they return is the endpoint's text before its '?', then "?", then a
+   non-empty query — for every serialiser, DEFLATE writer and signer. *)
+Theorem C14_endpoint_kept_source :
+  forall (write_doc : node -> res string) fl_write fl_close (sign : Redirect.hash_alg -> string -> option string) sp relay doc url,
+  (common_endpoint (rsp_sso_url sp) = true ->
+   (G_BuildAuthURLRedirect url_parse_gurl write_doc fl_write fl_close sign sp relay doc = PVal (Ok url) \/
+    G_BuildAuthURLFromDocument url_parse_gurl write_doc fl_write fl_close sign sp relay doc = PVal (Ok url)) ->
+   exists q, nonempty q = true /\ url = endpoint_base (rsp_sso_url sp) ++ "?" ++ q) /\
+  (common_endpoint (rsp_slo_url sp) = true ->
+   G_BuildLogoutURLRedirect url_parse_gurl write_doc fl_write fl_close sign sp relay doc = PVal (Ok url) ->
+   exists q, nonempty q = true /\ url = endpoint_base (rsp_slo_url sp) ++ "?" ++ q).
+Proof. exact endpoint_kept_source. Qed.
+Print Assumptions C14_endpoint_kept_source.
